@@ -109,6 +109,12 @@ def check(prop, tier):
                                           "shape": {}, "recorded": v["event"]}, behaviour=v["behaviour"]))
         else:
             member_note += "; NOT explained by Membership.tla at a %s step (outside C15, see ./check M01)" % v["event"].get("a")
+    crashed, detail = memberchk.stress(tier, os.path.join(wd, "member-stress"), drivebin)
+    if crashed:
+        violations.append(dict(what="C15_NoCrash", event={"rpc": "gossip.Discover+Announce", "msg": "ConnectionData", "must": False, "shape": {},
+                                                        "outcome": "process died", "detail": detail}))
+    else:
+        member_note += "; concurrent valid Discover / Announce: " + detail
     log("[member] " + member_note)
     uniq = {}
     for v in violations:
